@@ -39,6 +39,7 @@ func VerifHarness_C07_permission_timers() {
 	vAssert(vTimerArmed(perm2.lifetimeTimer), "C07.refreshed_timer_armed")
 	vAssert(vTimerDur(perm2.lifetimeTimer) == t2, "C07.refresh_restarts_full_timeout")
 	vAssert(vTimerDeadline(perm2.lifetimeTimer) == c1+int64(t2), "C07.refresh_deadline_is_now_plus_timeout")
+	vAssert(vTimerDeadline(perm2.lifetimeTimer) == c1+int64(t2), "C01.permission_expires_one_permission_timeout_after_its_last_refresh")
 	vAssertIf(!sameIP, vTimerDeadline(perm1.lifetimeTimer) == c0+int64(t1), "C07.other_permission_untouched")
 	vAssertIf(!sameIP, a.GetPermission(p1) == perm1, "C07.until_expiry_entry_authorises")
 	// expiry of the (possibly refreshed) permission for p2
@@ -54,7 +55,7 @@ func VerifHarness_C07_permission_timers() {
 // Channel bindings: binding timer gets the channel timeout, the peer's permission the permission
 // timeout (not swapped); re-bind restarts both; expiry frees number and peer.
 //
-//verif:props=C07,C08 replay=model bounds="all positive timeouts, all valid channel numbers, IPv4/IPv6 peers"
+//verif:props=C07,C08,C01 replay=model bounds="all positive timeouts, all valid channel numbers, IPv4/IPv6 peers"
 func VerifHarness_C07_channel_timers() {
 	a, _, _ := VNewAlloc(nil)
 	log := &VLogger{}
@@ -77,6 +78,7 @@ func VerifHarness_C07_channel_timers() {
 	vAssume(perm != nil)
 	vAssert(vAnd(vTimerArmed(cb.lifetimeTimer), vTimerDur(cb.lifetimeTimer) == ct), "C07.binding_armed_with_channel_timeout")
 	vAssert(vAnd(vTimerArmed(perm.lifetimeTimer), vTimerDur(perm.lifetimeTimer) == pt), "C07.bind_permission_armed_with_permission_timeout")
+	vAssert(vTimerDeadline(perm.lifetimeTimer) == c0+int64(pt), "C01.permission_of_a_bound_peer_expires_after_the_permission_timeout")
 	vAssert(vTimerDeadline(cb.lifetimeTimer) == c0+int64(ct), "C07.binding_deadline")
 	vAdvance(vI64())
 	c1 := vClock()
@@ -88,11 +90,14 @@ func VerifHarness_C07_channel_timers() {
 	vAssert(vAnd(vTimerArmed(cb.lifetimeTimer), vTimerDur(cb.lifetimeTimer) == ct2), "C07.rebind_restarts_channel_timeout")
 	vAssert(vTimerDeadline(cb.lifetimeTimer) == c1+int64(ct2), "C07.rebind_deadline_is_now_plus_timeout")
 	vAssert(vAnd(vTimerArmed(perm.lifetimeTimer), vTimerDur(perm.lifetimeTimer) == pt2), "C07.rebind_restarts_permission_timeout")
+	vAssert(vTimerDeadline(perm.lifetimeTimer) == c1+int64(pt2), "C01.permission_of_a_rebound_peer_expires_after_the_permission_timeout")
 	vAssert(len(a.permissions) == 1, "C07.rebind_adds_no_permission")
 	// expiry of the binding frees the number and the peer
 	vFire(cb.lifetimeTimer)
 	vAssert(a.GetChannelByNumber(n) == nil, "C07.expired_binding_gone_by_number")
 	vAssert(a.GetChannelByAddr(p) == nil, "C07.expired_binding_gone_by_peer")
+	vAssert(a.GetPermission(p) == perm, "C07.channel_expiry_leaves_the_peers_permission_alone")
+	vAssert(vAnd(vTimerArmed(perm.lifetimeTimer), vTimerDeadline(perm.lifetimeTimer) == c1+int64(pt2)), "C07.channel_expiry_leaves_the_permission_timer_alone")
 	q := VUDPAddr()
 	n2 := proto.ChannelNumber(vU16())
 	vAssume(vInRange(n2))
